@@ -329,12 +329,19 @@ func genChain(o hreg.Opts, p chainPlan, mutants bool) (out seqOut) {
 				own[x.Label] = true
 				ms = append(ms, x)
 			}
+			// second stream: single-byte changes of the block's SSZ encoding that still decode (validity unknown by
+			// construction; S decides). Not part of the per-block sample cut below: always kept.
+			bytesMs := c.ByteMutations(step, o.Pick(3, 16), rng.Int63())
+			for i := range bytesMs {
+				own[bytesMs[i].Label] = true
+			}
 			if len(ms) > perBlock {
 				// deterministic sample that keeps the spread over mutation kinds: shuffle, then cut
 				rng.Shuffle(len(ms), func(a, b int) { ms[a], ms[b] = ms[b], ms[a] })
 				ms = ms[:perBlock]
 				sort.SliceStable(ms, func(a, b int) bool { return ms[a].Label < ms[b].Label })
 			}
+			ms = append(ms, bytesMs...)
 			for k := range ms {
 				mu := &ms[k]
 				emitOn(fs, step.PreBlock, mu.Label, mu.Block, engineOf(mu), nil, own[mu.Label])
